@@ -22,6 +22,7 @@ import (
 	"encoding/base64"
 	"fmt"
 	"strconv"
+	"strings"
 	"sync"
 	"time"
 
@@ -655,6 +656,9 @@ func (e *MetaCDC) validCreateRequest(req *request.CreateRequest) error {
 			if len(db) > e.config.MaxNameLength {
 				return servererror.NewClientError(fmt.Sprintf("the db name length exceeds %d characters, %s", e.config.MaxNameLength, db))
 			}
+			if strings.Contains(db, ".") {
+				return servererror.NewClientError(fmt.Sprintf("the db name can't contain '.', %s", db))
+			}
 			err = e.checkCollectionInfos(infos)
 			if err != nil {
 				break
@@ -663,6 +667,17 @@ func (e *MetaCDC) validCreateRequest(req *request.CreateRequest) error {
 	}
 	if err != nil {
 		return err
+	}
+	// full names are "db.collection": a '.' inside a database or collection name can't be split again
+	for _, mapping := range req.NameMapping {
+		if strings.Contains(mapping.SourceDB, ".") || strings.Contains(mapping.TargetDB, ".") {
+			return servererror.NewClientError(fmt.Sprintf("the db name in the name mapping can't contain '.', %s -> %s", mapping.SourceDB, mapping.TargetDB))
+		}
+		for source, target := range mapping.CollectionMapping {
+			if strings.Contains(source, ".") || strings.Contains(target, ".") {
+				return servererror.NewClientError(fmt.Sprintf("the collection name in the name mapping can't contain '.', %s -> %s", source, target))
+			}
+		}
 	}
 
 	if req.RPCChannelInfo.Name != "" && req.RPCChannelInfo.Name != e.config.SourceConfig.ReplicateChan {
@@ -717,6 +732,9 @@ func (e *MetaCDC) checkCollectionInfos(infos []model.CollectionInfo) error {
 	for _, info := range infos {
 		if info.Name == "" {
 			emptyName = true
+		}
+		if strings.Contains(info.Name, ".") {
+			return servererror.NewClientError(fmt.Sprintf("the collection name can't contain '.', %s", info.Name))
 		}
 		if info.Name == cdcreader.AllCollection && len(infos) > 1 {
 			return servererror.NewClientError(fmt.Sprintf("make sure the only one collection if you want to use the '*' collection param, current param: %v",
